@@ -162,6 +162,10 @@ def r2_left_wins(rep, ctx):
     # returned values (and maps, when they are handed back) keep their sides: every position of the result is
     # one operand's map or one operand's matched value, and the callers below take them from those positions
     pos = mq_convention(m)
+    if "other" in pos:
+        # a position of the result that is neither one operand's map nor derived from one operand's value alone (the
+        # values travel in a shared container, a pair object ...): which side it belongs to cannot be read off
+        raise AnalysisError("_MatchQuantities returns `%s`: position(s) %s cannot be attributed to one operand (the matched values do not travel in variables of their own)" % (norm(ast.unparse(pos["return"].value))[:80], pos["other"]))
     ok = "v1" in pos and "v2" in pos and "other" not in pos
     rep.check(ok, "C03.R2", "_MatchQuantities:returns-sides", "unit matching returns each operand's matched value (and map) at a position of its own", "unit matching returns %s: a position mixes the operands or one operand's value is missing" % ast.unparse(pos["return"].value), fn=fn)
     if not ok:
@@ -311,6 +315,11 @@ def r5_label_and_value(rep, ctx, RID="C03.R5"):
                     side = None
             if side is not None:
                 conv_assigns.append((st, side))
+    all_convs = [c for c in own_nodes(fn.node) if isinstance(c, ast.Call) and isinstance(c.func, ast.Attribute) and c.func.attr in ("Convert", "_ConvertWithExp")]
+    bound = {id(st.value) for st, _sd in conv_assigns}
+    loose = [c for c in all_convs if id(c) not in bound]
+    if loose:
+        raise AnalysisError("_MatchQuantities: the result of `%s` is not bound to a variable holding one operand's value (unit-matching idiom changed): which side it converts cannot be read off" % norm(ast.unparse(loose[0]))[:80])
     loop_of = {}
     for loop, sides in sh.loops:
         for st in own_statements(loop):
